@@ -25,7 +25,7 @@ CHECKS = {
             "astropy.io.fits is trusted.", "§5 C18"),
     "C20": ("Lean 4 proof that every streaming writer's op sequence is append-only with the header first and that "
             "EVERY byte-length truncation reads back as the first k complete samples (on top of C04/C05) + file-op "
-            "inventory REGENERATED from the source + write-by-write disk snapshots, truncation sweep and SIGKILL runs",
+            "inventory REGENERATED from the source + write-by-write disk snapshots, truncation sweep and SIGKILL runs + the header codec re-translated from io/sigproc.py and proved equal to the hand model (Tie/SigprocCodec)",
             "Theorems append_only, states_writerOps, prefix_chain(_ordered), header_never_patched, complete_on_return, "
             "truncation_readable, state_readable(_cwrite), truncation_mono, writer_ops_inventory (decide over the "
             "generated inventory: only open('w+')/write/tofile/close reach an output file; header written once, first).",
@@ -35,9 +35,9 @@ CHECKS = {
     "C15": ("Lean 4 proof over ℚ of the affine laws of order statistics and of every modelled estimator (sort under "
             "monotone/antitone maps, median, percentile, IQR, MAD incl. fallback, Qn, Sn, gapper, variance), of z-score "
             "equivariance for any law-abiding (loc, scale) pair, of the zero-scale guard and of per-lane axis semantics "
-            "+ exact-rational correspondence + relational oracle (affine maps, per-lane vs per-axis)",
+            "+ exact-rational correspondence + relational oracle (affine maps, per-lane vs per-axis) + the estimators, the dispatch tables, the zero-scale guard and apply_along_axes RE-TRANSLATED from core/stats.py / utils.py on every run (NumPy lane translator) and proved equal to the hand model (Tie/StatsLane); doublemad proved affine-equivariant for the translated source itself",
             "Theorems sortQ_aff_pos/neg, median_aff, percentile_aff, iqr/mad/qn/sn/gapper/variance_aff, "
-            "zscore_equivariant, zscore_divisor_ne_zero, zscore_const, alongAxis_*.",
+            "zscore_equivariant, zscore_divisor_ne_zero, zscore_const, alongAxis_*. Source tie: scale_iqr/mad/qn/sn/gapper_is_model, zscore_is_model, alongAxes_is_model, scale_dispatch, lane_wrappers, loc_dispatch, doublemad_aff_pos/neg, doublemad_length.",
             "doublemad, diffcov and astropy's biweight are validated by the correspondence/oracle run only; irrational "
             "normalising constants are positive rational parameters; float tolerance 1e-9 (float64) / 2e-4 (float32 "
             "z-scores, conditioning-aware).", "§5 C15"),
@@ -70,7 +70,7 @@ CHECKS = {
             "proved.", "§5 C12"),
     "C13": ("Lean 4 proof over ℚ that the roll/reverse/normalise/circular-product pipeline of convolve_templates is the "
             "inner product of the data with the normalised template placed at t, and of the argmax + numerical "
-            "correspondence of every response value + normalised-correlation oracle",
+            "correspondence of every response value + normalised-correlation oracle + the zero-scale guard / standardisation arithmetic of estimate_zscore re-translated from core/stats.py (Tie/StatsLane)",
             "Theorems response_is_correlation (no reversal/misalignment left over), prepTemplate_get, argmaxFirst_spec, "
             "peakOf_spec (first row-major maximum), correlation_add_const / correlation_scale / normTemplate_sum_zero "
             "(affine invariance given zero-mean templates), correlation_sq_le (Cauchy–Schwarz bound).",
@@ -104,11 +104,11 @@ CHECKS = {
             "dmt_block / dmt_block_valid TRANSLATED statement by statement on every run and proved equal to the model "
             "(Kernels/RollBlock, Kernels/DmtBlock: *_spec, *_in_row no-wrap, *_none_iff, *_link) + differential "
             "correspondence (incl. the translated kernels on tiny blocks) incl. exact-rational "
-            "delay law vs float32 delays + x[c,t+delay_c] oracle on unique-valued data",
+            "delay law vs float32 delays + x[c,t+delay_c] oracle on unique-valued data + the loop of FilReader.read_dedisp_block RE-TRANSLATED statement by statement (reader position in the loop state) and proved equal to the window specification for every band, delay vector and length (Tie/DedispBlock)",
             "Theorems delay_zero_at_ref, delay_antisymm, delay_mono_freq, delay_is_rounded_law; rollRow_get (circular "
             "index form), rollRow_inverse / blockDedisperse_inverse (DM then −DM = id), blockDedisperseValid_get, "
             "dmtTransform_row, readDedispBlock_get/_rejects, valid_eq_roll_prefix, pulse_restored; the streamed path is "
-            "C06's dedisperse_eq.",
+            "C06's dedisperse_eq. Source tie: read_dedisp_block_is_model.",
             "The float32 evaluation of the law is validated (accepted iff equal to the exact rounding or within the "
             "float32 error bound of a .5 boundary), not proved; valid-samples and streamed paths index from the "
             "earliest needed sample (offset max(0,−min delay)).", "§5 C09"),
@@ -143,7 +143,7 @@ CHECKS = {
             "correspondence run.", "§5 C08"),
     "C04": ("Lean 4 proof of sample encode/decode at every depth, cwrite width, chunked writes and the header+data "
             "write→read composition (on top of the C03 and C05 theorems) + byte-exact differential correspondence + "
-            "read-back oracle over all (dtype, depth, format)",
+            "read-back oracle over all (dtype, depth, format) + the header codec re-translated from io/sigproc.py and proved equal to the hand model (Tie/SigprocCodec: nsamples inferred by the translated parse_header is Samples.inferNsamples)",
             "Theorems decode_encode, cwrite_width (never a different width than declared), cwrite_refuses_iff, "
             "cwrite_dtype_irrelevant, cwriteAll_flatten, infer_nsamples, decode_prefix, readback_fil (a SIGPROC file = "
             "encoded header ++ encoded samples reads back as (nbits, nchans, n, values)).",
@@ -158,10 +158,10 @@ CHECKS = {
             "Integer-valued data (float32 sums exact); the delay vector is a parameter (its law is C09); output "
             "allocation/headers are covered by the correspondence run and C08.", "§5 C06"),
     "C05": ("Lean 4 proof of the header byte codec (parse∘encode = id, encode∘parse = bytes, edit touches only its key) "
-            "over tables regenerated from source + byte-exact differential correspondence + independent parser oracle",
+            "over tables regenerated from source + byte-exact differential correspondence + independent parser oracle + the codec itself (_read_string, encode_key, encode_header, parse_header, edit_header, parse_radec, frame flags, id defaults) RE-TRANSLATED from io/sigproc.py / header.py on every run and proved equal to the hand model (Tie/SigprocCodec), and executed by the driver on every correspondence request",
             "Theorems parse_encode / encode_parse for any list of well-typed entries and any trailing data; edit_exact / "
             "edit_ok_shape / edit_invalid_key for in-place edits; frame_roundtrip; telescope/machine id round trips by "
-            "decide +kernel over the generated tables; radec_roundtrip over ℚ including -1°<dec<0.",
+            "decide +kernel over the generated tables; radec_roundtrip over ℚ including -1°<dec<0. Source tie: encode_key/encode_header/read_string/parse_header/edit_header_is_model, parse_header_bad_magic/_too_short, parse_radec_dec/ra_is_model, flagsOfFrame/frameOfFlags_is_model, frame_roundtrip_source, id_defaults_are_model.",
             "Doubles are opaque 8-byte patterns; astropy's sexagesimal formatting/parsing and the float64 DDMMSS.S "
             "representation are validated to 0.01 arcsec by the correspondence run, not proved; strings are ASCII.",
             "§5 C05"),
